@@ -1,7 +1,7 @@
 #!/bin/bash
 # run every check's quick (or given tier) command sequentially; prints one line per property
-TIER=${1:-quick}; cd /verif
+TIER=${1:-quick}; cd "$(dirname "$(readlink -f "$0")")/.."
 for id in C01 C02 C03 C04 C05 C06 C07 C08 C09 C10 C11 C12 C13 C14 C15 C16 C17 C18 C19 C20; do
-  s=$(date +%s); ./check $id --tier $TIER > /tmp/runall.$id.out 2> /tmp/runall.$id.err; rc=$?; e=$(date +%s)
-  echo "$id rc=$rc $((e-s))s $(grep -c VIOLATION /tmp/runall.$id.out) violations"
+  s=$(date +%s); ./check $id --tier $TIER > ${TMPDIR:-/tmp}/runall.$id.out 2> ${TMPDIR:-/tmp}/runall.$id.err; rc=$?; e=$(date +%s)
+  echo "$id rc=$rc $((e-s))s $(grep -c VIOLATION ${TMPDIR:-/tmp}/runall.$id.out) violations"
 done
